@@ -44,3 +44,31 @@ package dvid
 //@   prop C06
 //@   requires len(b) >= 4
 //@   ensures uint32(result) == be32(b, 0)
+
+// ---- serialization envelope (C15) ----
+
+//@ func EncodeSerializationFormat
+//@   prop C15
+//@   ensures uint8(result) == ((uint8(compress.format) & 7) << 5) | ((uint8(checksum) & 3) << 3)
+
+//@ func DecodeSerializationFormat
+//@   prop C15
+//@   ensures uint8(result0) == uint8(s) >> 5 && uint8(result1) == (uint8(s) >> 3) & 3
+
+//@ func SerializePrecompressedData
+//@   prop C15
+//@   ensures len(data) == 0 ==> result1 == nil && len(result0) == 0
+//@   ensures len(data) > 0 && uint8(checksum) > 1 && uint8(compress.format) != 2 ==> result1 != nil
+//@   ensures len(data) > 0 && (uint8(checksum) == 0 || uint8(compress.format) == 2) ==> result1 == nil && len(result0) == 1 + len(data) && result0[0] == (uint8(compress.format) & 7) << 5 && rangeeq(result0, 1, data, 0, len(data))
+//@   ensures len(data) > 0 && uint8(checksum) == 1 && uint8(compress.format) != 2 ==> result1 == nil && len(result0) == 5 + len(data) && result0[0] == ((uint8(compress.format) & 7) << 5) | 8 && le32(result0, 1) == crc32(data) && rangeeq(result0, 5, data, 0, len(data))
+//@   ensures len(data) > 0 && result1 == nil ==> fresh(result0)
+
+//@ func DeserializeData
+//@   prop C15 C20
+//@   modifies *\E:uint8
+//@   ensures len(s) == 0 ==> result2 == nil && len(result0) == 0
+//@   ensures len(s) > 0 && (s[0] >> 3) & 3 >= 2 ==> result2 != nil
+//@   ensures len(s) > 0 && (s[0] >> 3) & 3 == 1 && len(s) < 5 ==> result2 != nil
+//@   ensures len(s) >= 5 && (s[0] >> 3) & 3 == 1 && crc32(s[5:]) != le32(s, 1) ==> result2 != nil
+//@   ensures len(s) > 0 && (s[0] >> 3) & 3 == 0 && (!uncompress || s[0] >> 5 == 0) ==> result2 == nil && uint8(result1) == s[0] >> 5 && len(result0) == len(s) - 1 && rangeeq(result0, 0, s, 1, len(s) - 1)
+//@   ensures len(s) >= 5 && (s[0] >> 3) & 3 == 1 && crc32(s[5:]) == le32(s, 1) && (!uncompress || s[0] >> 5 == 0) ==> result2 == nil && uint8(result1) == s[0] >> 5 && len(result0) == len(s) - 5 && rangeeq(result0, 0, s, 5, len(s) - 5)
